@@ -103,6 +103,11 @@ class Sel(object):
             else:
                 check_completion_code(rsp.completion_code)
 
+            if len(rsp.record_data) == 0:
+                # completed, but not a single byte: asking again at the same
+                # offset would never end
+                raise RetryError()
+
             record_data.extend(rsp.record_data)
             req.offset = len(record_data)
 
